@@ -13,10 +13,10 @@ H4V_IN_ARR(uint8_t, val, 96);
 
 typedef struct { const char *name; int32 type; int count; int size; int findex; } adef_t;
 /* attributes of the vdata: findex _HDF_VDATA = the vdata itself, 0 = first field */
-static const adef_t VA[] = {{"unit", DFNT_CHAR8, 3, 3, _HDF_VDATA}, {"scale", DFNT_INT16, 2, 4, _HDF_VDATA}, {"f0", DFNT_INT32, 1, 4, 0},
-                            {"unitx", DFNT_UINT8, 2, 2, _HDF_VDATA}, {"f0", DFNT_FLOAT64, 1, 8, 1}};
+static const adef_t VA[] = {{"unitx", DFNT_UINT8, 2, 2, _HDF_VDATA}, {"scale", DFNT_INT16, 2, 4, _HDF_VDATA}, {"f0", DFNT_INT32, 1, 4, 0},
+                            {"unit", DFNT_UINT8, 2, 2, _HDF_VDATA}, {"f0", DFNT_FLOAT64, 1, 8, 1}};
 #define NVA 5
-static const adef_t GA[] = {{"title", DFNT_CHAR8, 4, 4, 0}, {"rng", DFNT_INT32, 2, 8, 0}, {"titlex", DFNT_UINT16, 1, 2, 0}};
+static const adef_t GA[] = {{"titlex", DFNT_UINT16, 1, 2, 0}, {"rng", DFNT_INT32, 2, 8, 0}, {"title", DFNT_UINT16, 1, 2, 0}};
 #define NGA 3
 static uint8 Gv[NVA][8], Gg[NGA][8], Gr[NGA][8];
 
@@ -85,7 +85,7 @@ void harness(void)
     H4V_GET_ARR(val, 96);
     f = Hopen("t.hdf", DFACC_CREATE, 16);
     H4V_ASSERT(f != FAIL && Vstart(f) == SUCCEED, "C10.S1.open");
-#if MODE == 0 /* Vdata + Vgroup attributes */
+#if MODE == 0 /* Vdata and Vdata-field attributes */
     vs = VSattach(f, -1, "w");
     H4V_ASSERT(vs != FAIL && VSfdefine(vs, "A", DFNT_INT16, 1) == SUCCEED && VSfdefine(vs, "B", DFNT_UINT8, 2) == SUCCEED && VSsetfields(vs, "A,B") == SUCCEED, "C10.S1.vs.def");
     H4V_ASSERT(VSsetname(vs, "tbl") == SUCCEED && VSwrite(vs, val, 1, FULL_INTERLACE) == 1, "C10.S1.vs.write");
@@ -95,17 +95,23 @@ void harness(void)
         for (k = 0; k < VA[i].size; k++) Gv[i][k] = val[p + k];
         p += 8;
     }
-    check_vs(vs);
     /* replace (same type/count): value changes, index and the others stay */
     H4V_ASSERT(VSsetattr(vs, VA[1].findex, VA[1].name, VA[1].type, VA[1].count, &val[p]) == SUCCEED, "C10.S1.vs.replace");
     for (k = 0; k < VA[1].size; k++) Gv[1][k] = val[p + k];
     p += 8;
-    check_vs(vs);
     /* change of type or count is refused and keeps the old value */
     H4V_ASSERT(VSsetattr(vs, VA[1].findex, VA[1].name, DFNT_INT32, VA[1].count, &val[p]) == FAIL, "C10.S1.vs.retype: changing an attribute's type was accepted");
-    H4V_ASSERT(VSsetattr(vs, VA[0].findex, VA[0].name, VA[0].type, VA[0].count + 1, &val[p]) == FAIL, "C10.S1.vs.recount: changing an attribute's count was accepted");
+    H4V_ASSERT(VSsetattr(vs, VA[2].findex, VA[2].name, VA[2].type, VA[2].count + 1, &val[p]) == FAIL, "C10.S1.vs.recount: changing an attribute's count was accepted");
     check_vs(vs);
     vsref = VSQueryref(vs);
+    H4V_ASSERT(VSdetach(vs) == SUCCEED && Vend(f) == SUCCEED && Hclose(f) == SUCCEED, "C10.S1.close");
+    f = Hopen("t.hdf", ROPEN, 0);
+    H4V_ASSERT(f != FAIL && Vstart(f) == SUCCEED, "C10.S1.reopen");
+    vs = VSattach(f, vsref, (ROPEN & DFACC_WRITE) ? "w" : "r");
+    H4V_ASSERT(vs != FAIL, "C10.S1.reattach");
+    check_vs(vs);
+    H4V_ASSERT(VSdetach(vs) == SUCCEED && Vend(f) == SUCCEED && Hclose(f) == SUCCEED, "C10.S1.close2");
+#elif MODE == 3 /* Vgroup attributes */
     vg = Vattach(f, -1, "w");
     H4V_ASSERT(vg != FAIL && Vsetname(vg, "g") == SUCCEED, "C10.S1.vg.create");
     for (i = 0; i < NGA; i++) {
@@ -113,22 +119,19 @@ void harness(void)
         for (k = 0; k < GA[i].size; k++) Gg[i][k] = val[p + k];
         p += 8;
     }
-    check_vg(vg);
     H4V_ASSERT(Vsetattr(vg, GA[0].name, GA[0].type, GA[0].count, &val[p]) == SUCCEED, "C10.S1.vg.replace");
     for (k = 0; k < GA[0].size; k++) Gg[0][k] = val[p + k];
     p += 8;
     H4V_ASSERT(Vsetattr(vg, GA[1].name, DFNT_INT16, GA[1].count, &val[p]) == FAIL, "C10.S1.vg.retype: changing an attribute's type was accepted");
     check_vg(vg);
     vgref = VQueryref(vg);
-    H4V_ASSERT(Vdetach(vg) == SUCCEED && VSdetach(vs) == SUCCEED && Vend(f) == SUCCEED && Hclose(f) == SUCCEED, "C10.S1.close");
+    H4V_ASSERT(Vdetach(vg) == SUCCEED && Vend(f) == SUCCEED && Hclose(f) == SUCCEED, "C10.S1.vg.close");
     f = Hopen("t.hdf", ROPEN, 0);
-    H4V_ASSERT(f != FAIL && Vstart(f) == SUCCEED, "C10.S1.reopen");
-    vs = VSattach(f, vsref, (ROPEN & DFACC_WRITE) ? "w" : "r");
+    H4V_ASSERT(f != FAIL && Vstart(f) == SUCCEED, "C10.S1.vg.reopen");
     vg = Vattach(f, vgref, (ROPEN & DFACC_WRITE) ? "w" : "r");
-    H4V_ASSERT(vs != FAIL && vg != FAIL, "C10.S1.reattach");
-    check_vs(vs);
+    H4V_ASSERT(vg != FAIL, "C10.S1.vg.reattach");
     check_vg(vg);
-    H4V_ASSERT(Vdetach(vg) == SUCCEED && VSdetach(vs) == SUCCEED && Vend(f) == SUCCEED && Hclose(f) == SUCCEED, "C10.S1.close2");
+    H4V_ASSERT(Vdetach(vg) == SUCCEED && Vend(f) == SUCCEED && Hclose(f) == SUCCEED, "C10.S1.vg.close2");
 #else /* GR file attributes and image attributes */
     gr = GRstart(f);
     H4V_ASSERT(gr != FAIL, "C10.S1.gr.start");
